@@ -79,7 +79,39 @@ def purge_modules(prefixes):
         del sys.modules[name]
 
 
-def import_fresh_bisturi(tree):
+class _OptimisingFinder:
+    """meta-path finder that loads bisturi from the snapshot compiled as `python -O` would (asserts and
+    `if __debug__` blocks removed): the simulated process runs under another optimisation level"""
+
+    def __init__(self, tree, optimize):
+        self.tree, self.optimize = tree, optimize
+
+    def find_spec(self, name, path=None, target=None):
+        if name != "bisturi" and not name.startswith("bisturi."):
+            return None
+        import importlib.machinery
+        import importlib.util
+        rel = name.split(".")
+        base = os.path.join(self.tree, *rel)
+        optimize = self.optimize
+
+        class Loader(importlib.machinery.SourceFileLoader):
+            def get_code(self, fullname):
+                with open(self.path, "rb") as f:
+                    return compile(f.read(), self.path, "exec", dont_inherit=True, optimize=optimize)
+        from . import fsseam
+        real = fsseam.REAL_SFL
+        Loader.__bases__ = (real,)
+        if os.path.isdir(base):
+            fn = os.path.join(base, "__init__.py")
+            return importlib.util.spec_from_file_location(name, fn, loader=Loader(name, fn), submodule_search_locations=[base])
+        fn = base + ".py"
+        if os.path.exists(fn):
+            return importlib.util.spec_from_file_location(name, fn, loader=Loader(name, fn))
+        return None
+
+
+def import_fresh_bisturi(tree, optimize=0):
     """a brand-new copy of the bisturi package imported from the snapshot"""
     if not sys.path or sys.path[0] != tree:
         if tree in sys.path:
@@ -88,8 +120,16 @@ def import_fresh_bisturi(tree):
     purge_modules(["bisturi"])
     import importlib
     importlib.invalidate_caches()
-    import bisturi  # noqa
-    import bisturi.packet, bisturi.field, bisturi.structural_fields, bisturi.descriptor, bisturi.fragments  # noqa
+    finder = None
+    if optimize:
+        finder = _OptimisingFinder(tree, optimize)
+        sys.meta_path.insert(0, finder)
+    try:
+        import bisturi  # noqa
+        import bisturi.packet, bisturi.field, bisturi.structural_fields, bisturi.descriptor, bisturi.fragments  # noqa
+    finally:
+        if finder is not None:
+            sys.meta_path.remove(finder)
     assert bisturi.__file__.startswith(tree), (bisturi.__file__, tree)
     return sys.modules["bisturi"]
 
